@@ -62,6 +62,11 @@ func genC12(t *rapid.T) CaseC12 {
 	}
 	e.Partition = rapid.Byte().Draw(t, "partition")
 	nr := rapid.SampledFrom([]int{0, 0, 0, 1, 2, 5, 20}).Draw(t, "nreserved")
+	if rapid.IntRange(0, 5).Draw(t, "fill-length-byte") == 0 {
+		// reserved bytes up to a data_field_length of 253..255 (the length byte's maximum)
+		body := len(e.Bytes()) - 2
+		nr = rapid.SampledFrom([]int{253, 254, 255, 200, 129, 128}).Draw(t, "target-length") - body
+	}
 	e.Reserved = genBytes(t, nr, nr, "reserved")
 	c := CaseC12{EBP: e}
 	// instant
@@ -208,8 +213,8 @@ func checkC12(c CaseC12, x *hx.Ctx) *hx.Failure {
 		return hx.Failf("bad-case", "grouping must not be empty")
 	}
 	raw := e.Bytes()
-	if len(raw) > 183 {
-		return hx.Failf("bad-case", "EBP larger than transport private data allows")
+	if len(raw) > 257 {
+		return hx.Failf("bad-case", "EBP body longer than the length byte can express")
 	}
 	nflags := 0
 	for b := e.Flags; b != 0; b &= b - 1 {
@@ -298,8 +303,8 @@ func checkC12(c CaseC12, x *hx.Ctx) *hx.Failure {
 var propC12 = hx.Register(hx.Prop[CaseC12]{ID: "C12", Gen: genC12, Check: checkC12})
 
 func c12Rule() {
-	hx.Rec("C12").SetRule("cases: a reference-model EBP of either flavour (any flags byte, extension flags, SAP byte, Comcast one grouping byte / CableLabs chain of 1..6 seven-bit ids biased to 0x1C/0x1D, NTP seconds and fraction from boundary sets, partition byte, 0..20 reserved trailing bytes, format identifier EBP0 or arbitrary) and an instant in [1968-01-20T03:14:08Z, 2104-02-26T09:42:24Z) biased to second edges (x.000000000, x.999999999, x.999999998), multiples of 1/512 s and the two era edges. Oracle: getters = model, EBPTime = era + seconds + floor(fraction*10^9/2^32) ns by exact integer arithmetic, StreamSyncSignal = first id in {0x1C,0x1D} else 0xFF, Data() of the decoded object = input bytes; the same model realised through Create*/setters/exported fields encodes to bytes that decode to the same getters with length byte = bytes that follow; |EBPTime(SetEBPTime(t)) - t| <= 1 ns directly and through the wire. Enumerated: all 256 flag bytes x both flavours x {no ext partition, partition} with minimal bodies. Non-trivial: >= 3 flags set, or a chain >= 3, or reserved bytes, or an instant within 2 ns of a second edge.",
-		"total EBP size <= 183 bytes (it lives in transport private data); non-empty EBPs only",
+	hx.Rec("C12").SetRule("cases: a reference-model EBP of either flavour (any flags byte, extension flags, SAP byte, Comcast one grouping byte / CableLabs chain of 1..6 seven-bit ids biased to 0x1C/0x1D, NTP seconds and fraction from boundary sets, partition byte, 0..20 reserved trailing bytes or as many as make data_field_length 128..255, format identifier EBP0 or arbitrary) and an instant in [1968-01-20T03:14:08Z, 2104-02-26T09:42:24Z) biased to second edges (x.000000000, x.999999999, x.999999998), multiples of 1/512 s and the two era edges. Oracle: getters = model, EBPTime = era + seconds + floor(fraction*10^9/2^32) ns by exact integer arithmetic, StreamSyncSignal = first id in {0x1C,0x1D} else 0xFF, Data() of the decoded object = input bytes; the same model realised through Create*/setters/exported fields encodes to bytes that decode to the same getters with length byte = bytes that follow; |EBPTime(SetEBPTime(t)) - t| <= 1 ns directly and through the wire. Enumerated: all 256 flag bytes x both flavours x {no ext partition, partition} with minimal bodies. Non-trivial: >= 3 flags set, or a chain >= 3, or reserved bytes, or an instant within 2 ns of a second edge.",
+		"data_field_length up to 255 (beyond the 183 bytes that fit transport private data: the decoder API takes any byte string); non-empty EBPs only",
 		"Set*Flag(false) is a no-op by design: the builder path only sets flags",
 		"EBPSuccessReadTime (wall clock) is never compared")
 }
